@@ -282,6 +282,7 @@ func denote(k string, v interface{}) (litValue, bool) {
 			return lv, false
 		}
 		lv.Num = f
+		lv.Over = f >= 9223372036854775808.0 // an integer, but more than an int holds
 		return lv, true
 	case "RDFLangString":
 		m, ok := v.(map[string]interface{})
@@ -346,6 +347,9 @@ func (lv litValue) matches(got reflect.Value) (bool, string) {
 		return ok && f == lv.Num, fmt.Sprintf("got %#v want %v", g, lv.Num)
 	case "XMLSchemaNonNegativeInteger":
 		n, ok := g.(int)
+		if lv.Over {
+			return false, fmt.Sprintf("got %#v for a count no int holds (%v)", g, lv.Num)
+		}
 		return ok && float64(n) == lv.Num, fmt.Sprintf("got %#v want %v", g, lv.Num)
 	case "RDFLangString":
 		m, ok := g.(map[string]string)
@@ -422,7 +426,8 @@ func baseSamples(k string) []interface{} {
 	case "XMLSchemaFloat":
 		return []interface{}{1.5, -0.25, 0.0, 12345678.125, 1e-9, -1e15}
 	case "XMLSchemaNonNegativeInteger":
-		return []interface{}{0.0, 1.0, 7.0, 2147483647.0, 9007199254740992.0}
+		// ... and integers no Go int holds: only "kept as written" is right
+		return []interface{}{0.0, 1.0, 7.0, 2147483647.0, 9007199254740992.0, 9223372036854775808.0, 1e19, 18446744073709551616.0, 1e30}
 	case "RDFLangString":
 		return []interface{}{map[string]interface{}{"en": "hello", "fr": "bonjour"}, map[string]interface{}{"und": ""}, map[string]interface{}{"zh-Hant": "世界"}}
 	}
